@@ -63,6 +63,7 @@ def any_variant(rng, a, m, total=True):
             # make the destination overlap the image: same target parents / symbols
             tg = [x for _, x in m] or [0]
             dst = gen.rand_ta(rng, 3, rng.randint(1, 5), states=sorted(set(tg))[:4] + [rng.choice(tg)])
+        if rng.random() < 0.2: dst = a.copy()        # the destination is a copy of the source itself
         return case("RD", a, m, 0, rng.choice([1, 0]), dst)
     if v == "RW":
         pre = [e for e in m if rng.random() < rng.choice([0.0, 0.5, 1.0])]
@@ -180,7 +181,7 @@ def nontrivial(c, impl, verd):
 
 def observe(dist, c, impl, verd):
     w = verd.split()
-    for f in ("RF", "RD", "RW", "CS", "TS", "injective", "merging", "identity", "sparse", "prefilled", "into_nonempty_dst", "nofinals"):
+    for f in ("RF", "RD", "RW", "CS", "TS", "injective", "merging", "identity", "sparse", "prefilled", "into_nonempty_dst", "dst_is_copy_of_src", "nofinals"):
         if f in w: dist[f] = dist.get(f, 0) + 1
     m = re.search(r"states=(\d+) rules=(\d+)", verd)
     if m:
